@@ -74,6 +74,9 @@ class Gen:
         self.indent = 0
         self.anon = 0
         self.stop = False
+        self.extra = []                   # Gen objects of files included from inside a defset body
+        self.allow_defset_include = False
+        self.crlf = crlf
         self.last_nl = True       # nothing but indentation since the last newline
         self.features = set()
 
@@ -706,6 +709,8 @@ class Gen:
         self.osp()
         self.emit("{")
         self.indent += 1
+        if self.allow_defset_include and not self.extra and ctx != "defset" and depth == 0:
+            self.include_in_defset()
         n = r.randrange(0, 4)
         for _ in range(n):
             self.statement("defset", children, depth + 1)
@@ -725,6 +730,30 @@ class Gen:
         self.features.add("defset-%d" % min(n, 3))
         if ctx == "defset":
             self.features.add("defset-nested")
+
+    def include_in_defset(self):
+        """`include "incd.td"` as the first statement of a defset body.  The defs of the included file are indexed while
+        the defset is open: they are members of the defset but live in another file.  Whether they are "declared inside
+        the defset" is ambiguous, so in the included file's own outline they are OPTIONAL (present at the top level or
+        absent: no alarm either way); what is certain is that they are NOT children of the defset in the includer's
+        outline (fix 28899f7: the document symbols of a file list what is declared in that file)."""
+        g2 = Gen(self.rng, self.crlf, self.nonascii, 2, omit_semi=False, fname="incd.td")
+        g2.last_stmt_end = 0
+        g2.classes, g2.multiclasses, g2.defs = self.classes, self.multiclasses, self.defs
+        g2.counter, g2.anon = self.counter, self.anon
+        self.newline()
+        self.emit('include "incd.td"')
+        for _ in range(self.rng.randrange(1, 3)):
+            g2.st_def("defset", g2.outline, 1)
+        if self.rng.random() < 0.5:
+            g2.st_class("top", g2.outline, 1)
+        g2.emit(g2.nlc)
+        for e in g2.outline:
+            if e["kind"] == "Def":
+                e["optional"] = True
+        self.counter, self.anon = g2.counter, g2.anon
+        self.extra.append(g2)
+        self.features.add("include-in-defset")
 
     def st_multiclass(self, ctx, container, depth):
         r = self.rng
@@ -859,11 +888,16 @@ def gen_workspace(rng, size=6, crlf=None, nonascii=None, with_include=None, omit
     g = Gen(rng, crlf, nonascii, size, omit_semi=omit_semi)
     g.last_stmt_end = 0
     g.classes, g.multiclasses, g.counter, g.anon = dict(shared_classes), dict(shared_mc), counter, anon0
+    g.allow_defset_include = rng.random() < 0.3
     if with_include:
         g.emit('include "inc.td"' + g.nlc)
     g.program()
     files.append(["main.td", g.text()])
     expected["main.td"] = _expected(g)
+    for g2 in g.extra:
+        files.append([g2.file, g2.text()])
+        expected[g2.file] = _expected(g2)
+        feats |= g2.features
     feats |= g.features
     if crlf:
         feats.add("crlf")
